@@ -13,6 +13,10 @@ pub struct Ctx {
     /// multiplies the number of generated cases (the `check` driver raises it when it searches for
     /// a failing input after a proof obligation or a correspondence broke)
     pub budget: u64,
+    /// lower-case id of the property this run decides
+    pub prop: String,
+    /// the case being evaluated is written here first, so that a hang can be reported with a replay
+    pub current_case_file: std::path::PathBuf,
 }
 
 /// map an implementation error message to the small enum shared with the model
